@@ -42,6 +42,8 @@ def run_all(seeds, opts, tier, rows):
         mp = os.path.join(d, "meta.json")
         meta = json.load(open(mp)) if os.path.exists(mp) else {"name": name}
         checks = opts.get("--checks", "").split(",") if opts.get("--checks") else sorted(set([meta.get("property")] + list(meta.get("checks_run", {}).keys())) - {None})
+        if "--own" in opts:
+            checks = [meta.get("property") or name[:3]]
         r = sh(["git", "-C", REPO, "apply", os.path.join(d, "patch.diff")])
         if r.returncode != 0:
             print(name, "patch does not apply:", r.stdout[-300:])
